@@ -4,9 +4,10 @@ import Driver.OpsXtce
 import Driver.OpsCli
 import Driver.OpsCopy
 import Driver.OpsXarr
+import Driver.OpsXml
 namespace Driver
 
-def handlers : List (String → List SExp → Option String) := [opsBits, opsPackets, opsXtce, opsCli, opsCopy, opsXarr]
+def handlers : List (String → List SExp → Option String) := [opsBits, opsPackets, opsXtce, opsCli, opsCopy, opsXarr, opsXml]
 
 def respond (line : String) : String :=
   match parseLine line with
